@@ -193,6 +193,9 @@ func (r *propRun) crossCheckLogs(logs []string) {
 	}
 }
 
+// crossCheckQueries: how many queries of each logged session are replayed on the other solvers.
+const crossCheckQueries = 1500
+
 func answers(cmd *exec.Cmd, log, prefix string) []string {
 	f, err := os.Open(log)
 	if err != nil {
@@ -209,10 +212,17 @@ func answers(cmd *exec.Cmd, log, prefix string) []string {
 		w.WriteString(prefix)
 		sc := bufio.NewScanner(f)
 		sc.Buffer(make([]byte, 1<<20), 1<<26)
+		nq := 0
 		for sc.Scan() {
 			line := sc.Text()
 			if strings.HasPrefix(line, "(get-value") {
 				continue
+			}
+			if strings.HasPrefix(line, "(check-sat") {
+				nq++
+				if nq > crossCheckQueries {
+					break // a prefix of the session is replayed (bounded cost)
+				}
 			}
 			w.WriteString(line)
 			w.WriteString("\n")
